@@ -339,7 +339,12 @@ def _run_case(item):
 
 
 def run(ctx: Ctx):
+    from ..translate import gen as _gen
+    _gen.regenerate(ctx, ["Thermo"])
     leanproj.check_theorems(ctx, MODULE, THEOREMS)
+    from .registry import THEOREMS_THERMOTIE
+    # translator tie: Maxwell-Boltzmann scale, exact-temperature factor, temperature and the count of degrees of freedom, as the source computes them now
+    leanproj.check_theorems(ctx, "PyseqmVerif.Properties.ThermoTie", THEOREMS_THERMOTIE)
     drv = leanproj.Driver()
     try:
         try:
